@@ -10,6 +10,10 @@ Inductive case :=
    add-chain): None = the configuration was refused (limit before start), Some a = the log answered
    200 (a = true) or 400 (a = false) to a certificate expiring at t *)
 | CConfigPoint (t : Z) (iv : interval) (admitted : option bool)
+(* the NotAfter that integration.NotAfterForLog returned for a log with window iv (None = it returned an
+   error) at a wall-clock time between now0 and now1; tc = the NotAfter that a certificate issued with it
+   carries (whole seconds); the server's and a single-shard client's verdicts on them *)
+| CNotAfter (iv : interval) (now0 now1 : Z) (t : option Z) (tc : Z) (ctfe_ok : bool) (client_ok : option bool)
 | CLogList (t s e : Z) (kept : bool)
 | CShards (shards : list interval) (ts : list Z) (obs : option (list (option nat))).
 
@@ -32,6 +36,15 @@ Definition check (c : case) : bool :=
   | CConfigPoint t iv a =>
       opt_eqb Bool.eqb (match config_window iv with Some w => Some (ctfe_admits t w) | None => None end) a
   | CPoint t iv a b => Bool.eqb (ctfe_admits t iv) a && opt_eqb Bool.eqb (model_client_point t iv) b
+  | CNotAfter iv n0 n1 ot tc a b =>
+      match ot with
+      | None => false
+      | Some t =>
+          match iv with
+          | (None, None) => (not_after_for_log n0 iv <=? t) && (t <=? not_after_for_log n1 iv)
+          | _ => t =? not_after_for_log n0 iv
+          end && Bool.eqb (ctfe_admits tc iv) a && opt_eqb Bool.eqb (model_client_point t iv) b
+      end
   | CLogList t s e k => Bool.eqb (loglist_keep t s e) k
   | CShards sh ts obs => opt_eqb (list_eqb (opt_eqb Nat.eqb)) (run_shards sh ts) obs
   end.
@@ -40,6 +53,8 @@ Definition explain (c : case) :=
   match c with
   | CConfigPoint t iv _ => (Some (ctfe_admits t iv, match config_window iv with Some _ => Some true | None => None end), None, None)
   | CPoint t iv _ _ => (Some (ctfe_admits t iv, model_client_point t iv), None, None)
+  | CNotAfter iv n0 _ _ tc _ _ =>
+      (Some (ctfe_admits tc iv, model_client_point (not_after_for_log n0 iv) iv), Some (insideb (not_after_for_log n0 iv) iv), None)
   | CLogList t s e _ => (None, Some (loglist_keep t s e), None)
   | CShards sh ts _ => (None, None, Some (run_shards sh ts))
   end.
